@@ -105,7 +105,7 @@ def keep_from_manifest(resp, head_prefix_hint=None):
 
 class Gen:
     def __init__(self, rng, n_ops=14, n_objects=2, layouts=None, hostile_ids=False, profile="general", live=None,
-                 two_clients=False, weights=None, observe_history=False):
+                 two_clients=False, weights=None, observe_history=False, observe_ls=False):
         self.rng = rng
         self.sc = Script()
         self.sc.live = live
@@ -114,6 +114,7 @@ class Gen:
         self.hostile = hostile_ids
         self.weights = weights or [30, 8, 16, 14, 10, 8, 2, 16, 1, 2, 1]
         self.observe_history = observe_history
+        self.observe_ls = observe_ls
         self.n_ops = n_ops
         self.profile = profile
         lay = rng.choice(layouts or (LAYOUTS[:3] + [LAYOUTS[6]] if hostile_ids else LAYOUTS[:2] + LAYOUTS[:1] * 2 + LAYOUTS))
@@ -173,6 +174,23 @@ class Gen:
         sc.add("smanifest", "smanifest %s" % hx(oid), kind="manifest", id=oid)
         sc.add("sfiles", "sfiles %s" % hx(oid), kind="files", id=oid)
         sc.add("heads", "heads %s" % hx(oid), kind="plain", id=oid)
+
+    def observe_listing(self):
+        sc, rng = self.sc, self.rng
+        sc.add("ls", "ls -", kind="ls")
+        sc.add("lsstaged", "lsstaged -", kind="ls")
+        for _ in range(2):
+            if not self.ids:
+                break
+            i = rng.choice(self.ids)
+            frag = [c for c in i if c not in "*?[]{}\\"]
+            if not frag:
+                continue
+            k = rng.randint(0, len(frag))
+            g = rng.choice(["".join(frag[:k]) + "*", "*" + "".join(frag[k:]), "".join(frag[:k]) + "?" + "".join(frag[k + 1:]), "*", "".join(frag)])
+            sc.add("ls", "ls %s" % hx(g), kind="ls")
+            if rng.random() < 0.4:
+                sc.add("lsstaged", "lsstaged %s" % hx(g), kind="ls")
 
     def observe_main(self, oid):
         sc = self.sc
@@ -300,6 +318,8 @@ class Gen:
         if rng.random() < 0.3:
             p = rng.choice(self.path_pool(oid))
             sc.add("cat", "cat %s %s %s" % (hx(oid), rng.choice(["-", "v1", "v2"]), hx(p)), kind="cat", id=oid)
+        if self.observe_ls:
+            self.observe_listing()
         if rng.random() < 0.1:
             sc.add("open", "open", "heads %s" % hx(oid), kind="skip")
 
@@ -412,6 +432,15 @@ def compare_step(step, h, d, contents, alg_of):
     if kind == "files":
         a, b = canon_pairs_h_files(h), canon_pairs_model(d)
         return a == b, "content files impl %s model %s" % (a, b)
+    if kind == "ls":
+        if not h.startswith("ok") or not d.startswith("ok"):
+            return outcome(h) == outcome(d), "ls outcome impl %s model %s" % (outcome(h), outcome(d))
+        j = json.loads(h[3:])
+        a = sorted("%s:v%d" % (hx(o[0]), int(o[1][1:])) for o in j["objects"])
+        b = sorted(d[3:].split())
+        if j["errors"]:
+            return False, "listing reported %d errors" % j["errors"]
+        return a == b, "listing impl %s model %s" % ([x for x in a if x not in b][:4], [x for x in b if x not in a][:4])
     if kind == "diff":
         if not h.startswith("ok") or not d.startswith("ok"):
             return outcome(h) == outcome(d), "diff outcome impl %s model %s" % (outcome(h), outcome(d))
